@@ -4,9 +4,10 @@ import importlib
 
 MODULES = {
     "C18": ["contracts.types_named"],
-    "C04": ["contracts.ash"],
-    "C05": ["contracts.ash"],
-    "C01": ["contracts.ash"],
+    "C04": ["contracts.externals", "contracts.ash"],
+    "C05": ["contracts.externals", "contracts.ash"],
+    "C01": ["contracts.externals", "contracts.ash"],
+    "C03": ["contracts.externals", "contracts.ash", "contracts.ash_wire"],
 }
 
 EXTRA_OBLIGATIONS = {}
